@@ -6,6 +6,8 @@ package main
 
 import (
 	"bytes"
+	"runtime"
+	"sync"
 	"crypto/hmac"
 	"crypto/sha256"
 	"crypto/sha512"
@@ -320,6 +322,103 @@ func init() {
 
 	// C03: the digest of a transaction object that was edited in place between two calls must be that
 	// of the edited transaction (no stale cached intermediate hashes); compared with a freshly parsed copy
+	// C03: "computing a signature hash never changes the transaction": goroutines computing digests of ONE
+	// object, and one goroutine that only looks at it, must see what they see when run alone
+	reg("c03.shared", GoOnly, func(a []string) (string, []string) {
+		t, err := tx.FromBytes(unhx(a[0]))
+		if err != nil || len(t.Inputs) == 0 {
+			return "err", nil
+		}
+		sc := unhx(a[1])
+		before := t.Bytes()
+		nw := len(t.Witnesses)
+		types := []uint32{1, 2, 3, 0x81, 0x82, 0x83}
+		type job struct {
+			n  int
+			ht uint32
+			w  bool
+		}
+		var jobs []job
+		var want [][32]byte
+		var wantErr []bool
+		for n := range t.Inputs {
+			for _, ht := range types {
+				for _, w := range []bool{false, true} {
+					var d [32]byte
+					var e error
+					if w {
+						d, e = t.SignatureHashForWitnessInput(n, sc, ht, 12345)
+					} else {
+						d, e = t.SignatureHashForInput(n, sc, ht)
+					}
+					jobs = append(jobs, job{n, ht, w})
+					want = append(want, d)
+					wantErr = append(wantErr, e != nil)
+				}
+			}
+		}
+		var mu sync.Mutex
+		var direct []string
+		note := func(s string) {
+			mu.Lock()
+			if len(direct) < 4 {
+				direct = append(direct, s)
+			}
+			mu.Unlock()
+		}
+		var wg sync.WaitGroup
+		stop := make(chan struct{})
+		obsDone := make(chan struct{})
+		go func() { // the observer
+			defer close(obsDone)
+			for {
+				select {
+				case <-stop:
+					return
+				default:
+				}
+				if len(t.Witnesses) != nw {
+					note(fmt.Sprintf("while digests were being computed the transaction was seen with %d witnesses instead of %d", len(t.Witnesses), nw))
+					return
+				}
+				runtime.Gosched()
+			}
+		}()
+		for g := 0; g < 8; g++ {
+			wg.Add(1)
+			go func(g int) {
+				defer wg.Done()
+				defer func() {
+					if e := recover(); e != nil {
+						note(fmt.Sprintf("panic while computing a digest of a shared transaction: %v", e))
+					}
+				}()
+				for rep := 0; rep < 6; rep++ {
+					for i := g; i < len(jobs); i += 3 {
+						j := jobs[i]
+						var d [32]byte
+						var e error
+						if j.w {
+							d, e = t.SignatureHashForWitnessInput(j.n, sc, j.ht, 12345)
+						} else {
+							d, e = t.SignatureHashForInput(j.n, sc, j.ht)
+						}
+						if (e != nil) != wantErr[i] || d != want[i] {
+							note(fmt.Sprintf("digest (input %d, hash type %#x, witness %v) computed while other goroutines compute digests of the same object differs from the one computed alone", j.n, j.ht, j.w))
+							return
+						}
+					}
+				}
+			}(g)
+		}
+		wg.Wait()
+		close(stop)
+		<-obsDone
+		if !bytes.Equal(before, t.Bytes()) {
+			direct = append(direct, "the transaction serializes differently after concurrent digest computations")
+		}
+		return "ok", direct
+	})
 	reg("c03.seq.inplace", GoOnly, func(a []string) (string, []string) {
 		t, err := tx.FromBytes(unhx(a[0]))
 		if err != nil || len(t.Inputs) == 0 {
@@ -373,6 +472,22 @@ func init() {
 			}
 			ht := []uint32{1, 2, 3, 0x81, 0x82, 0x83}[r.rng.Intn(6)]
 			r.Do("c03.seq.inplace", []string{hx(t.Bytes()), strconv.Itoa(r.rng.Intn(len(t.Inputs))), hx(sc), strconv.FormatUint(uint64(ht), 10)}, "digest-after-in-place-edit", true, "")
+		}
+		// one transaction object shared by goroutines that only compute digests (and one that only reads it)
+		for i := 0; i < r.N(3, 20); i++ {
+			t, _ := r.genTx(4, 4)
+			t.Witnesses = make([]tx.Witness, len(t.Inputs))
+			for j := range t.Witnesses {
+				t.Witnesses[j] = tx.Witness{r.bytesN(72), r.bytesN(33)}
+			}
+			if len(t.Outputs) == 0 {
+				t.Outputs = []*tx.Output{{Value: 1, Script: []byte{0x51}}}
+			}
+			sc, parse, _ := r.genScriptCode()
+			if !parse {
+				sc = []byte{0x76, 0xa9, 0x14, 1, 2, 3, 4, 5, 6, 7, 8, 9, 10, 11, 12, 13, 14, 15, 16, 17, 18, 19, 20, 0x88, 0xac}
+			}
+			r.Do("c03.shared", []string{hx(t.Bytes()), hx(sc)}, "digests-of-a-shared-object", true, "")
 		}
 		// SIGHASH_SINGLE far down a transaction with >= 253 inputs and outputs (count written as a compact size)
 		for _, n := range []int{253, 300} {
